@@ -168,4 +168,390 @@ theorem reverse_takeWhile_dropWhile (p : Char → Bool) (s : Str)
     · simp [hall, hc]
     · simp [hall]
 
+theorem stripGen_s (x : AStr) (chars : Option Str) (doL doR ip : Bool) :
+    (x.stripGen chars doL doR ip).s =
+      (if doR then fun s : Str => (s.reverse.dropWhile (fun c => (chars.getD Gen.whitespaceChars).contains c)).reverse else id)
+        ((if doL then fun s : Str => s.dropWhile (fun c => (chars.getD Gen.whitespaceChars).contains c) else id) x.s) := by
+  generalize hp : (fun c => (chars.getD Gen.whitespaceChars).contains c) = p
+  unfold AStr.stripGen
+  simp only [hp]
+  have h1 : x.s.drop (if doL = true then (List.takeWhile p x.s).length else 0) =
+      (if doL = true then fun s => List.dropWhile p s else id) x.s := by
+    cases doL <;> simp [drop_takeWhile_length]
+  have h2 : (if doL = true then (List.takeWhile p x.s).length else 0) < x.s.length →
+      ((if doL = true then fun s => List.dropWhile p s else id) x.s).reverse.takeWhile p =
+        x.s.reverse.takeWhile p := by
+    cases doL
+    · simp
+    · intro h; exact reverse_takeWhile_dropWhile p x.s (by simpa using h)
+  generalize (if doL = true then (List.takeWhile p x.s).length else 0) = l at h1 h2 ⊢
+  generalize ((if doL = true then fun s => List.dropWhile p s else id) x.s) = t at h1 h2 ⊢
+  have h3 : (t.reverse.dropWhile p).reverse = t.take (t.length - (t.reverse.takeWhile p).length) :=
+    (take_sub_reverse_takeWhile p t).symm
+  have hx : x.len = x.s.length := rfl
+  by_cases hc : doR = true ∧ l < x.len
+  · obtain ⟨hR, hlt⟩ := hc
+    rw [hx] at hlt
+    have h2' := h2 hlt
+    simp only [hR, hx, hlt, and_self, if_true]
+    rw [h3, h2']
+    generalize (List.takeWhile p (List.reverse x.s)).length = r
+    by_cases hr : r = 0
+    · subst hr
+      simp only [if_true, Option.isNone_none, and_true, Nat.sub_zero, List.take_length]
+      split
+      · rename_i h; rw [← h1, h.2]; rfl
+      · rw [getSlice_from_s, h1]
+    · simp only [hr, if_false, Option.isNone_some]
+      simp only [Bool.false_eq_true, and_false, if_false]
+      rw [getSlice_negstop_s _ _ _ (by omega), sliceIdx_ofNat, hx, Nat.min_eq_left (by omega),
+        ← h1, List.drop_take, List.length_drop]
+      congr 1
+      omega
+  · simp only [hc, if_false, Option.isNone_none, and_true]
+    have : (if doR = true then fun s : Str => (List.dropWhile p (List.reverse s)).reverse else id) t = t := by
+      cases doR
+      · rfl
+      · have : x.s.length ≤ l := by simp [hx] at hc; exact hc
+        have : t = [] := by rw [← h1]; exact List.drop_of_length_le this
+        subst this; rfl
+    rw [this]
+    split
+    · rename_i h; rw [← h1, h.2]; rfl
+    · rw [getSlice_from_s, h1]
+
+/-! ## `find` / `rfind`: first / last position where `sub` is a prefix of the rest -/
+
+
+theorem findFrom_nil (sub : Str) (pos from_ : Nat) :
+    Py.findFrom [] sub pos from_ = if pos ≥ from_ ∧ sub.isEmpty then some pos else none := by
+  rw [Py.findFrom]
+
+theorem findFrom_cons (c : Char) (rest sub : Str) (pos from_ : Nat) :
+    Py.findFrom (c :: rest) sub pos from_ =
+      if pos ≥ from_ ∧ sub.isPrefixOf (c :: rest) then some pos
+      else Py.findFrom rest sub (pos + 1) from_ := by
+  rw [Py.findFrom, startsWith_eq]
+
+theorem findFrom_some_iff (s sub : Str) (pos from_ r : Nat) :
+    Py.findFrom s sub pos from_ = some r ↔
+      ∃ j, r = pos + j ∧ j ≤ s.length ∧ from_ ≤ pos + j ∧ sub.isPrefixOf (s.drop j) = true ∧
+        ∀ i < j, from_ ≤ pos + i → sub.isPrefixOf (s.drop i) = false := by
+  induction s generalizing pos with
+  | nil =>
+    rw [findFrom_nil]
+    constructor
+    · intro h
+      split at h
+      · rename_i hc
+        refine ⟨0, by simpa using h.symm, by simp, hc.1, ?_, by simp⟩
+        have := hc.2
+        cases sub <;> simp_all
+      · cases h
+    · rintro ⟨j, hr, hj, hf, hp, -⟩
+      have hj0 : j = 0 := by simpa using hj
+      subst hj0
+      have : sub.isEmpty = true := by cases sub <;> simp_all
+      rw [if_pos ⟨hf, this⟩, hr]; rfl
+  | cons c rest ih =>
+    rw [findFrom_cons]
+    by_cases hc : pos ≥ from_ ∧ sub.isPrefixOf (c :: rest) = true
+    · rw [if_pos hc]
+      constructor
+      · intro h
+        refine ⟨0, by simpa using h.symm, by simp, hc.1, hc.2, by simp⟩
+      · rintro ⟨j, hr, -, -, -, hall⟩
+        cases j with
+        | zero => rw [hr]; rfl
+        | succ j =>
+          have := hall 0 (by omega) hc.1
+          rw [List.drop_zero, hc.2] at this
+          cases this
+    · rw [if_neg hc, ih]
+      constructor
+      · rintro ⟨j, hr, hj, hf, hp, hall⟩
+        refine ⟨j + 1, by omega, by simp; omega, by omega, by simpa using hp, ?_⟩
+        intro i hi hfi
+        cases i with
+        | zero =>
+          cases hb : sub.isPrefixOf (c :: rest) with
+          | false => simpa using hb
+          | true => exact absurd ⟨hfi, hb⟩ hc
+        | succ i =>
+          have := hall i (by omega) (by omega)
+          simpa using this
+      · rintro ⟨j, hr, hj, hf, hp, hall⟩
+        cases j with
+        | zero => exact absurd ⟨hf, by simpa using hp⟩ hc
+        | succ j =>
+          refine ⟨j, by omega, by simpa using hj, by omega, by simpa using hp, ?_⟩
+          intro i hi hfi
+          have := hall (i + 1) (by omega) (by omega)
+          simpa using this
+
+/-- a match at `k ≥ from_` forces `find` to succeed at or before `k` -/
+theorem findFrom_of_match (s sub : Str) (pos from_ k : Nat) (hk : k ≤ s.length)
+    (hf : from_ ≤ pos + k) (hp : sub.isPrefixOf (s.drop k) = true) :
+    ∃ j, j ≤ k ∧ Py.findFrom s sub pos from_ = some (pos + j) ∧ from_ ≤ pos + j ∧
+      sub.isPrefixOf (s.drop j) = true := by
+  induction s generalizing pos k with
+  | nil =>
+    have hk0 : k = 0 := by simpa using hk
+    subst hk0
+    refine ⟨0, Nat.le_refl _, ?_, hf, hp⟩
+    rw [findFrom_nil]
+    have : sub.isEmpty = true := by cases sub <;> simp_all
+    rw [if_pos ⟨hf, this⟩]; rfl
+  | cons c rest ih =>
+    rw [findFrom_cons]
+    by_cases hc : pos ≥ from_ ∧ sub.isPrefixOf (c :: rest) = true
+    · exact ⟨0, Nat.zero_le _, by rw [if_pos hc]; rfl, hc.1, hc.2⟩
+    · rw [if_neg hc]
+      cases k with
+      | zero => exact absurd ⟨hf, by simpa using hp⟩ hc
+      | succ k =>
+        obtain ⟨j, hjk, hfind, hfj, hpj⟩ := ih (pos + 1) k (by simpa using hk) (by omega) (by simpa using hp)
+        exact ⟨j + 1, by omega, by rw [hfind]; congr 1; omega, by omega, by simpa using hpj⟩
+
+theorem findFrom_append_skip (a b sub : Str) (pos from_ : Nat) (h : pos + a.length ≤ from_) :
+    Py.findFrom (a ++ b) sub pos from_ = Py.findFrom b sub (pos + a.length) from_ := by
+  induction a generalizing pos with
+  | nil => rfl
+  | cons c a ih =>
+    simp only [List.length_cons] at h
+    rw [List.cons_append, findFrom_cons, if_neg (by omega), ih (pos + 1) (by omega)]
+    congr 1
+    simp only [List.length_cons]; omega
+
+theorem findFrom_shift (s sub : Str) (pos from_ d : Nat) :
+    Py.findFrom s sub (pos + d) (from_ + d) = (Py.findFrom s sub pos from_).map (· + d) := by
+  induction s generalizing pos with
+  | nil =>
+    rw [findFrom_nil, findFrom_nil]
+    by_cases h : pos ≥ from_ ∧ sub.isEmpty = true
+    · rw [if_pos h, if_pos ⟨by omega, h.2⟩]; rfl
+    · rw [if_neg h, if_neg (by intro h'; exact h ⟨by omega, h'.2⟩)]; rfl
+  | cons c rest ih =>
+    rw [findFrom_cons, findFrom_cons]
+    by_cases h : pos ≥ from_ ∧ sub.isPrefixOf (c :: rest) = true
+    · rw [if_pos h, if_pos ⟨by omega, h.2⟩]; rfl
+    · rw [if_neg h, if_neg (by intro h'; exact h ⟨by omega, h'.2⟩)]
+      have : pos + d + 1 = (pos + 1) + d := by omega
+      rw [this, ih]
+
+theorem find_append_skip (a b sub : Str) (k : Nat) :
+    Py.find (a ++ b) sub (a.length + k) = (Py.find b sub k).map (· + a.length) := by
+  unfold Py.find
+  rw [findFrom_append_skip a b sub 0 _ (by omega)]
+  have := findFrom_shift b sub 0 k a.length
+  rw [Nat.add_comm k] at this
+  exact this
+
+/-! occurrences -/
+theorem occurrences_nil (sub : Str) (pos : Nat) :
+    Py.occurrences [] sub pos = if sub.isEmpty then [pos] else [] := by rw [Py.occurrences]
+
+theorem occurrences_cons (c : Char) (rest sub : Str) (pos : Nat) :
+    Py.occurrences (c :: rest) sub pos =
+      if sub.isPrefixOf (c :: rest) then pos :: Py.occurrences rest sub (pos + 1)
+      else Py.occurrences rest sub (pos + 1) := by
+  rw [Py.occurrences, startsWith_eq]
+
+theorem mem_occurrences (s sub : Str) (pos r : Nat) :
+    r ∈ Py.occurrences s sub pos ↔
+      ∃ j, r = pos + j ∧ j ≤ s.length ∧ sub.isPrefixOf (s.drop j) = true := by
+  induction s generalizing pos with
+  | nil =>
+    rw [occurrences_nil]
+    cases sub with
+    | nil => simp
+    | cons d sub =>
+      simp only [List.isEmpty_cons, Bool.false_eq_true, if_false, List.not_mem_nil, false_iff]
+      rintro ⟨j, -, hj, hp⟩
+      have : j = 0 := by simpa using hj
+      subst this
+      simp at hp
+  | cons c rest ih =>
+    rw [occurrences_cons]
+    have key : (∃ j, r = pos + j ∧ j ≤ (c :: rest).length ∧ sub.isPrefixOf ((c :: rest).drop j) = true) ↔
+        ((r = pos ∧ sub.isPrefixOf (c :: rest) = true) ∨
+          ∃ j, r = pos + 1 + j ∧ j ≤ rest.length ∧ sub.isPrefixOf (rest.drop j) = true) := by
+      constructor
+      · rintro ⟨j, hr, hj, hp⟩
+        cases j with
+        | zero => exact Or.inl ⟨hr, by simpa using hp⟩
+        | succ j => exact Or.inr ⟨j, by omega, by simpa using hj, by simpa using hp⟩
+      · rintro (⟨hr, hp⟩ | ⟨j, hr, hj, hp⟩)
+        · exact ⟨0, hr, by simp, by simpa using hp⟩
+        · exact ⟨j + 1, by omega, by simpa using hj, by simpa using hp⟩
+    rw [key]
+    by_cases hp : sub.isPrefixOf (c :: rest) = true
+    · rw [if_pos hp, List.mem_cons, ih]; simp [hp]
+    · rw [if_neg hp, ih]; simp [hp]
+
+theorem occurrences_sorted (s sub : Str) (pos : Nat) :
+    (Py.occurrences s sub pos).Pairwise (· < ·) := by
+  induction s generalizing pos with
+  | nil => rw [occurrences_nil]; split <;> simp
+  | cons c rest ih =>
+    rw [occurrences_cons]
+    split
+    · rw [List.pairwise_cons]
+      refine ⟨?_, ih _⟩
+      intro r hr
+      obtain ⟨j, hj, -⟩ := (mem_occurrences _ _ _ _).mp hr
+      omega
+    · exact ih _
+
+theorem getLast?_sorted {l : List Nat} (h : l.Pairwise (· < ·)) (r : Nat) :
+    l.getLast? = some r ↔ r ∈ l ∧ ∀ y ∈ l, y ≤ r := by
+  constructor
+  · intro hl
+    obtain ⟨l', rfl⟩ := List.getLast?_eq_some_iff.mp hl
+    rw [List.pairwise_append] at h
+    refine ⟨by simp, ?_⟩
+    intro y hy
+    rcases List.mem_append.mp hy with hy | hy
+    · exact Nat.le_of_lt (h.2.2 y hy r (by simp))
+    · simp at hy; omega
+  · rintro ⟨hr, hmax⟩
+    cases hl : l.getLast? with
+    | none => rw [List.getLast?_eq_none_iff] at hl; subst hl; cases hr
+    | some z =>
+      obtain ⟨l', rfl⟩ := List.getLast?_eq_some_iff.mp hl
+      rw [List.pairwise_append] at h
+      have hz := hmax z (by simp)
+      rcases List.mem_append.mp hr with hr | hr
+      · have := h.2.2 r hr z (by simp); omega
+      · simp at hr; rw [hr]
+
+theorem rfind_some_iff (s sub : Str) (r : Nat) :
+    Py.rfind s sub = some r ↔
+      r ≤ s.length ∧ sub.isPrefixOf (s.drop r) = true ∧
+        ∀ i, r < i → i ≤ s.length → sub.isPrefixOf (s.drop i) = false := by
+  unfold Py.rfind
+  rw [getLast?_sorted (occurrences_sorted s sub 0), mem_occurrences]
+  constructor
+  · rintro ⟨⟨j, hr, hj, hp⟩, hmax⟩
+    have : r = j := by omega
+    subst this
+    refine ⟨hj, hp, ?_⟩
+    intro i hi hil
+    cases hb : sub.isPrefixOf (s.drop i) with
+    | false => rfl
+    | true =>
+      have := hmax i ((mem_occurrences _ _ _ _).mpr ⟨i, by omega, hil, hb⟩)
+      omega
+  · rintro ⟨hr, hp, hall⟩
+    refine ⟨⟨r, by omega, hr, hp⟩, ?_⟩
+    intro y hy
+    obtain ⟨j, hj, hjl, hpj⟩ := (mem_occurrences _ _ _ _).mp hy
+    have : y = j := by omega
+    subst this
+    by_cases hlt : r < y
+    · have := hall y hlt hjl; rw [this] at hpj; cases hpj
+    · omega
+
+theorem rfind_none_iff (s sub : Str) :
+    Py.rfind s sub = none ↔ ∀ i, i ≤ s.length → sub.isPrefixOf (s.drop i) = false := by
+  unfold Py.rfind
+  rw [List.getLast?_eq_none_iff, List.eq_nil_iff_forall_not_mem]
+  constructor
+  · intro h i hi
+    cases hb : sub.isPrefixOf (s.drop i) with
+    | false => rfl
+    | true => exact absurd ((mem_occurrences _ _ _ _).mpr ⟨i, by omega, hi, hb⟩) (h i)
+  · intro h r hr
+    obtain ⟨j, -, hjl, hpj⟩ := (mem_occurrences _ _ _ _).mp hr
+    rw [h j hjl] at hpj; cases hpj
+
+theorem find_some_iff (s sub : Str) (st r : Nat) :
+    Py.find s sub st = some r ↔
+      r ≤ s.length ∧ st ≤ r ∧ sub.isPrefixOf (s.drop r) = true ∧
+        ∀ i < r, st ≤ i → sub.isPrefixOf (s.drop i) = false := by
+  unfold Py.find
+  rw [findFrom_some_iff]
+  constructor
+  · rintro ⟨j, hr, hj, hf, hp, hall⟩
+    have : r = j := by omega
+    subst this
+    exact ⟨hj, by omega, hp, fun i hi hs => hall i hi (by omega)⟩
+  · rintro ⟨hr, hs, hp, hall⟩
+    exact ⟨r, by omega, hr, by omega, hp, fun i hi hs => hall i hi (by omega)⟩
+
+/-- a match at `k ≥ st` forces `find` to succeed at or before `k` -/
+theorem find_of_match (s sub : Str) (st k : Nat) (hk : k ≤ s.length) (hs : st ≤ k)
+    (hp : sub.isPrefixOf (s.drop k) = true) :
+    ∃ j, Py.find s sub st = some j ∧ st ≤ j ∧ j ≤ k ∧ sub.isPrefixOf (s.drop j) = true := by
+  obtain ⟨j, hjk, hf, hsj, hpj⟩ := findFrom_of_match s sub 0 st k hk (by omega) hp
+  exact ⟨j, by unfold Py.find; rw [hf]; congr 1; omega, by omega, hjk, hpj⟩
+
+theorem find_none_iff (s sub : Str) (st : Nat) :
+    Py.find s sub st = none ↔ ∀ i, i ≤ s.length → st ≤ i → sub.isPrefixOf (s.drop i) = false := by
+  constructor
+  · intro h i hi hs
+    cases hb : sub.isPrefixOf (s.drop i) with
+    | false => rfl
+    | true =>
+      obtain ⟨j, hf, -⟩ := find_of_match s sub st i hi hs hb
+      rw [h] at hf; cases hf
+  · intro h
+    cases hf : Py.find s sub st with
+    | none => rfl
+    | some r =>
+      obtain ⟨hr, hs, hp, -⟩ := (find_some_iff _ _ _ _).mp hf
+      rw [h r hr hs] at hp; cases hp
+
+/-- a match exactly at the start position is what `find` returns -/
+theorem find_at (s sub : Str) (k : Nat) (hk : k ≤ s.length) (hp : sub.isPrefixOf (s.drop k) = true) :
+    Py.find s sub k = some k := by
+  obtain ⟨j, hf, h1, h2, -⟩ := find_of_match s sub k k hk (Nat.le_refl _) hp
+  have : j = k := by omega
+  rw [hf, this]
+
+theorem find_empty (s : Str) (k : Nat) :
+    Py.find s [] k = if k ≤ s.length then some k else none := by
+  by_cases h : k ≤ s.length
+  · rw [if_pos h]; exact find_at s [] k h (by simp)
+  · rw [if_neg h, find_none_iff]
+    intro i hi hs; omega
+
+/-- an occurrence at `i` splits the text -/
+theorem occ_decomp (s sub : Str) (i : Nat) (hp : sub.isPrefixOf (s.drop i) = true) :
+    s = s.take i ++ sub ++ s.drop (i + sub.length) := by
+  obtain ⟨t, ht⟩ := List.isPrefixOf_iff_prefix.mp hp
+  have h2 : s.drop (i + sub.length) = t := by
+    rw [← List.drop_drop, ← ht]
+    exact List.drop_left
+  rw [h2, List.append_assoc, ht, List.take_append_drop]
+
+theorem occ_of_decomp (pre sub post : Str) :
+    sub.isPrefixOf ((pre ++ sub ++ post).drop pre.length) = true := by
+  rw [List.append_assoc, List.drop_left]
+  exact List.isPrefixOf_iff_prefix.mpr ⟨post, rfl⟩
+
+theorem take_drop_occ (s sub : Str) (i : Nat) (hp : sub.isPrefixOf (s.drop i) = true) :
+    (s.take (i + sub.length)).drop i = sub := by
+  obtain ⟨t, ht⟩ := List.isPrefixOf_iff_prefix.mp hp
+  rw [List.drop_take, ← ht]
+  simp
+
+theorem partitionGen_some (x : AStr) (sep : Str) (r : Bool) (i : Nat)
+    (h : (if r then Py.rfind x.s sep else Py.find x.s sep 0) = some i)
+    (hp : sep.isPrefixOf (x.s.drop i) = true) :
+    ((x.partitionGen sep r).1.s, (x.partitionGen sep r).2.1.s, (x.partitionGen sep r).2.2.s) =
+      (x.s.take i, sep, x.s.drop (i + sep.length)) := by
+  unfold AStr.partitionGen
+  rw [h]
+  simp only
+  have h0 : (some (0 : Int)) = some ((0 : Nat) : Int) := rfl
+  rw [h0, getSlice_nat_s, getSlice_nat_s, getSlice_from_s, take_drop_occ _ _ _ hp]
+  simp
+
+theorem partitionGen_none (x : AStr) (sep : Str) (r : Bool)
+    (h : (if r then Py.rfind x.s sep else Py.find x.s sep 0) = none) :
+    x.partitionGen sep r = (x, {}, {}) := by
+  unfold AStr.partitionGen
+  rw [h]
+
 end SL
